@@ -95,6 +95,19 @@ def schemas(tier):
                     continue            # independent second rules add little: thorough only
                 for cons in constraint_variants(nm, [r1], 0 if tier == 'quick' else 1):
                     yield [r1, {'id': rid, 'name': nm, 'cons': cons, 'sign': []}]
+    # three rules: #r, a rule using #r, then a second definition of #r *after* its use (all definitions are alternatives
+    # wherever they stand in the text)
+    for r1 in firsts:
+        if r1['cons'] or (len(r1['name']) > 1 and tier == 'quick'):
+            continue
+        for nm2 in names(['#r'], 2):
+            if not any(e[0] == 'ref' for e in nm2):
+                continue
+            r2 = {'id': '#s', 'name': nm2, 'cons': [], 'sign': []}
+            for nm3 in names([], 2):
+                if nm3 == r1['name']:
+                    continue
+                yield [r1, r2, {'id': '#r', 'name': nm3, 'cons': [], 'sign': []}]
     # three rules: chain of references r <- s <- t with short names, no extra constraints on s, t beyond one term
     for r1 in firsts:
         if len(r1['name']) > 1 and tier == 'quick':
